@@ -161,6 +161,49 @@ def filterNames (l : List (Nat × String)) (mp : List (Nat × Nat)) : List (Nat 
     | some s, some j => some (j, s)
     | _, _ => none)
 
+/-! the sections outside the code section, each as the emitter writes it after the pass (`none` = a
+    lookup of an emitted index fails, i.e. the real code panics) -/
+
+/-- imports: kept iff the imported entity is used; function imports get their new type index -/
+def gcImportsOut (m : ModuleM) (kf kt km kg : List Nat) (tyIdx : Nat → Option Nat) :
+    Option (List (String × String × ImportDescM)) :=
+  let fpos := importPositions m "f"; let tpos := importPositions m "t"
+  let mpos := importPositions m "m"; let gpos := importPositions m "g"
+  (m.imports.zipIdx.filterMap fun p =>
+    let i := p.1
+    match i.2.2 with
+    | .func t => if kf.contains (fpos.idxOf p.2) then some ((tyIdx t).map fun t' => (i.1, i.2.1, ImportDescM.func t')) else none
+    | .table _ => if kt.contains (tpos.idxOf p.2) then some (some i) else none
+    | .mem _ => if km.contains (mpos.idxOf p.2) then some (some i) else none
+    | .global _ => if kg.contains (gpos.idxOf p.2) then some (some i) else none).mapM id
+
+def gcGlobalsOut (m : ModuleM) (nig : Nat) (kg : List Nat) (maps : IdMaps) : Option (List (GlobalTyM × CExprM)) :=
+  ((m.globals.zipIdx.filter fun p => kg.contains (nig + p.2)).map (·.1)).mapM fun gl =>
+    (mapCExpr maps gl.2).map fun e => (gl.1, e)
+
+def gcExportsOut (m : ModuleM) (maps : IdMaps) : Option (List (String × String × Nat)) :=
+  m.exports.mapM fun e => (maps.get e.2.1 e.2.2).map fun i => (e.1, e.2.1, i)
+
+def gcStartOut (m : ModuleM) (funcMap : List (Nat × Nat)) : Option (Option Nat) :=
+  match m.start with
+  | none => some none
+  | some s => (assoc funcMap s).map some
+
+def gcElemsOut (m : ModuleM) (ke : List Nat) (funcMap : List (Nat × Nat)) (maps : IdMaps) : Option (List ElemM) :=
+  ((m.elems.zipIdx.filter fun p => ke.contains p.2).map (·.1)).mapM fun e =>
+    -- the table operand goes through the table map before the encoding is chosen
+    let e' : Option ElemM := match e.mode with
+      | .active t off => (assoc maps.tables (t.getD 0)).map fun t' => { e with mode := .active (some t') off }
+      | _ => some e
+    e'.bind (rtElem funcMap maps)
+
+def gcDatasOut (m : ModuleM) (kd : List Nat) (maps : IdMaps) : Option (List DataM) :=
+  ((m.datas.zipIdx.filter fun p => kd.contains p.2).map (·.1)).mapM fun d =>
+    let d' : Option DataM := match d.mode with
+      | .active mem off => (assoc maps.mems mem).map fun mm => { d with mode := .active mm off }
+      | .passive => some d
+    d'.bind (rtData maps)
+
 /-- parse, run the GC pass, emit -/
 def gcRoundTrip (m : ModuleM) : Option ModuleM :=
   if m.code.length ≠ m.funcs.length then none else
@@ -194,35 +237,14 @@ def gcRoundTrip (m : ModuleM) : Option ModuleM :=
       let funcMap := keptImpF.zipIdx.map (fun p => (p.1, p.2)) ++
         oc.funcs.zipIdx.map (fun p => (p.1.id, keptImpF.length + p.2))
       let maps : IdMaps := { other with funcs := funcMap, types := tyMap }
-      -- imports: kept iff the imported entity is used
-      let fpos := importPositions m "f"; let tpos := importPositions m "t"
-      let mpos := importPositions m "m"; let gpos := importPositions m "g"
-      let imports := (m.imports.zipIdx.filterMap fun p =>
-        let i := p.1
-        match i.2.2 with
-        | .func t => if kf.contains (fpos.idxOf p.2) then some ((tyIdx t).map fun t' => (i.1, i.2.1, ImportDescM.func t')) else none
-        | .table _ => if kt.contains (tpos.idxOf p.2) then some (some i) else none
-        | .mem _ => if km.contains (mpos.idxOf p.2) then some (some i) else none
-        | .global _ => if kg.contains (gpos.idxOf p.2) then some (some i) else none).mapM id
+      let imports := gcImportsOut m kf kt km kg tyIdx
       let tables := (m.tables.zipIdx.filter fun p => kt.contains (g.nit + p.2)).map (·.1)
       let mems := (m.mems.zipIdx.filter fun p => km.contains (g.nim + p.2)).map (·.1)
-      let globals := ((m.globals.zipIdx.filter fun p => kg.contains (g.nig + p.2)).map (·.1)).mapM fun gl =>
-        (mapCExpr maps gl.2).map fun e => (gl.1, e)
-      let exports := m.exports.mapM fun e => (maps.get e.2.1 e.2.2).map fun i => (e.1, e.2.1, i)
-      let start := match m.start with
-        | none => some none
-        | some s => (assoc funcMap s).map some
-      let elems := ((m.elems.zipIdx.filter fun p => ke.contains p.2).map (·.1)).mapM fun e =>
-        -- the table operand goes through the table map before the encoding is chosen
-        let e' : Option ElemM := match e.mode with
-          | .active t off => (assoc maps.tables (t.getD 0)).map fun t' => { e with mode := .active (some t') off }
-          | _ => some e
-        e'.bind (rtElem funcMap maps)
-      let datas := ((m.datas.zipIdx.filter fun p => kd.contains p.2).map (·.1)).mapM fun d =>
-        let d' : Option DataM := match d.mode with
-          | .active mem off => (assoc maps.mems mem).map fun mm => { d with mode := .active mm off }
-          | .passive => some d
-        d'.bind (rtData maps)
+      let globals := gcGlobalsOut m g.nig kg maps
+      let exports := gcExportsOut m maps
+      let start := gcStartOut m funcMap
+      let elems := gcElemsOut m ke funcMap maps
+      let datas := gcDatasOut m kd maps
       let keptDatas := (m.datas.zipIdx.filter fun p => kd.contains p.2).map (·.1)
       let anyPassive := keptDatas.any fun d => match d.mode with | .passive => true | _ => false
       let anyUse := (g.pfs.filter fun f => kf.contains f.id).any fun f =>
